@@ -250,7 +250,9 @@ class C01(EvalProp):
                   "query AST and document (Refine.v); C01 is stated on multisets of locations so that the known ordering "
                   "deviation D1 does not weaken it. The model is tied to the crate on every run by evaluating generated "
                   "(query, document) pairs through both, locations of the crate's results being recovered by address inside "
-                  "the caller's document (a copy or fabricated value shows up as FOREIGN).")
+                  "the caller's document (a copy or fabricated value shows up as FOREIGN). At string level the statement is proved end to end "
+                  "(C01_string_level_filter_free, C01_string_level_with_filters: text of the query -> generated grammar -> parser.rs -> "
+                  "evaluator = RFC nodelist) for the filter-free sublanguage and for filters nested to any depth in canonical spelling.")
     level_note = "hand model of src/query/*.rs; differential run is sampling; names with escapes are the listed known class D7"
     rule = ("random (query, document) pairs, 60% as query strings through query_with_path/query/query_only_path (random RFC layout), "
             "40% as programmatically built ASTs through js_path_process; observable = multiset of result locations found by "
@@ -532,8 +534,11 @@ class C05(EvalProp):
                   "9535 2.3.5 truth value of every logical expression (any nesting of !, &&, ||, parentheses, nested filters) on every current "
                   "node, existence tests are nodelist non-emptiness, @ rebinds at each nesting level and $ is the root; the filter selector keeps "
                   "exactly the children for which it holds, in order. Correspondence: formulas over existence/comparison atoms against documents "
-                  "realising the valuations, incl. members whose value is null/false/0/\"\"/[]/{} and filters nested in filter queries.")
-    level_note = "precedence of && over || is a parser fact checked through the E2E stream (strings) and, once the parser model lands, C06's round trip"
+                  "realising the valuations, incl. members whose value is null/false/0/\"\"/[]/{} and filters nested in filter queries. "
+                  "C05_string_level_children_in_order: for every expression of the filter tower (any nesting depth) the TEXT `$[?e]`, through "
+                  "the generated grammar, parser.rs and the evaluator, keeps exactly the children on which e holds, in order -- precedence of "
+                  "&& over || included, since the text is what the theorem starts from.")
+    level_note = "string-level theorem covers canonical spelling without function calls/float literals/escapes; the rest of precedence is the E2E stream"
     rule = ("random logical expressions (depth <= 3) over existence tests, negations, comparisons, $-rooted tests and nested filter queries; "
             "documents rich in falsy member values; 60% through query strings; non-trivial = RFC keeps at least one child")
 
